@@ -358,7 +358,7 @@ impl<'a, 'b> Gen<'a, 'b> {
 
     fn attr(&mut self) -> Attr {
         let name = (*self.t.pick(ATTR_NAMES)).to_string();
-        let n = self.t.below(4);
+        let n = self.t.below(7);
         let opts: Vec<String> = (0..n).map(|_| (*self.t.pick(ATTR_OPTS)).to_string()).collect();
         let trailing_comma = !opts.is_empty() && self.t.chance(60);
         Attr { name, opts, trailing_comma }
